@@ -748,6 +748,28 @@ fn run(op: &Value) -> Value {
             }
             match op["fields"].as_u64().unwrap() { 0 => go!(S0), 1 => go!(S1), _ => go!(S2) }
         }
+        "any_key" => {
+            // C13: a JSON object whose key is the decimal text of an integer, carried by Any, read back as a map keyed by that integer type
+            use conjure_object::Any;
+            let ty = op["ty"].as_str().unwrap();
+            let n = op["n"].as_str().unwrap();
+            let doc = format!("{{\"{}\":1}}", n);
+            macro_rules! k {
+                ($t:ty) => {{
+                    let want: $t = n.parse().unwrap();
+                    let direct = conjure_serde::json::client_from_str::<std::collections::BTreeMap<$t, i32>>(&doc).map(|m| m.keys().next().cloned()).ok().flatten();
+                    match conjure_serde::json::client_from_str::<Any>(&doc).map_err(|e| e.to_string()).and_then(|a| a.deserialize_into::<std::collections::BTreeMap<$t, i32>>().map_err(|e| e.to_string())) {
+                        Ok(m) => json!({"same": m.len() == 1 && m.keys().next() == Some(&want) && direct == Some(want), "keys": format!("{:?}", m.keys().collect::<Vec<_>>())}),
+                        Err(e) => json!({"same": false, "err": e, "direct_ok": direct == Some(want)}),
+                    }
+                }};
+            }
+            match ty {
+                "i8" => k!(i8), "i16" => k!(i16), "i32" => k!(i32), "i64" => k!(i64), "i128" => k!(i128),
+                "u8" => k!(u8), "u16" => k!(u16), "u32" => k!(u32), "u64" => k!(u64), "u128" => k!(u128),
+                _ => json!({"error": "ty"}),
+            }
+        }
         "any_prim" => {
             use conjure_object::Any;
             let ty = op["ty"].as_str().unwrap();
